@@ -113,6 +113,67 @@ theorem C05_frames_after_the_switch (raw : List Bytes) (fs : List Bytes) (hfs : 
   simp only [h1]
   exact C05_any_chunking fs hfs cs hcs
 
+/-- One stretch of a connection between two moves of the framing switch: the position of the switch, the chunks that arrive while it holds and —
+    for a stretch with framing on — the frames the peer sent during it. -/
+structure Phase where
+  on : Bool
+  chunks : List Bytes
+  frames : List Bytes
+
+/-- what the peer sent during an on-stretch is whole frames, cut into chunks anywhere -/
+def Phase.OK (p : Phase) : Prop := p.on = true → FramesOK p.frames ∧ p.chunks.flatten = stream p.frames
+
+/-- what must reach the layer above during the stretch: the frames, or (framing off) the chunks as they came -/
+def Phase.expected (p : Phase) : List Bytes := if p.on then p.frames else p.chunks
+
+/-- the layer over a whole connection: the switch is set at the start of every stretch (the property is read at every call), the buffer is the layer's own -/
+def runPhases : St → List Phase → St × List (List Bytes)
+  | s, [] => (s, [])
+  | s, p :: ps =>
+    let r := run { s with enabled := p.on } p.chunks
+    let rest := runPhases r.1 ps
+    (rest.1, r.2 :: rest.2)
+
+theorem run_off (raw : List Bytes) : run { enabled := false, buf := [] } raw = ({ enabled := false, buf := [] }, raw) := by
+  unfold run
+  rw [run_disabled_aux [] raw []]
+  simp
+
+/-- The switch may move any number of times within one connection (the login of an account with routing information: raw header, framed
+    routing information, raw prologue, frames): every stretch delivers exactly what it should — the frames of an on-stretch in any chunking,
+    the chunks of an off-stretch as they came — whatever the stretches before it were. -/
+theorem C05_any_sequence_of_switches (ps : List Phase) (h : ∀ p ∈ ps, p.OK) (en : Bool) :
+    (runPhases { enabled := en, buf := [] } ps).2 = ps.map Phase.expected ∧ (runPhases { enabled := en, buf := [] } ps).1.buf = [] := by
+  induction ps generalizing en with
+  | nil => simp [runPhases]
+  | cons p ps ih =>
+    have hp := h p (by simp)
+    have hps : ∀ q ∈ ps, q.OK := fun q hq => h q (by simp [hq])
+    cases hon : p.on with
+    | true =>
+      obtain ⟨hf, hc⟩ := hp hon
+      have hr : run { enabled := true, buf := [] } p.chunks = ({ enabled := true, buf := [] }, p.frames) := C05_any_chunking p.frames hf p.chunks hc
+      simp only [runPhases, hon, hr, List.map_cons, Phase.expected]
+      exact ⟨by simp [(ih hps true).1], (ih hps true).2⟩
+    | false =>
+      have hr := run_off p.chunks
+      simp only [runPhases, hon, hr, List.map_cons, Phase.expected]
+      exact ⟨by simp [(ih hps false).1], (ih hps false).2⟩
+
+/-- Sensitivity (seed C05-15): a layer that stays framed once framing has been on cuts the raw bytes of a later off-stretch up as frames. -/
+theorem C05_latched_switch_breaks_a_later_raw_stretch :
+    (recv { enabled := true, buf := [] } [0, 0, 1, 87, 65]).2 ≠ [[0, 0, 1, 87, 65]] ∧
+    (runPhases { enabled := true, buf := [] } [⟨false, [[0, 0, 1, 87, 65]], []⟩]).2 = [[[0, 0, 1, 87, 65]]] := by
+  constructor
+  · simp [recv, peel, rd24]
+  · simp [runPhases, run, recv]
+
+/- Non-vacuity: the login of an account with routing information, as four stretches. -/
+example : ∀ p ∈ ([⟨false, [[69, 68, 0, 1]], []⟩, ⟨true, [[0, 0], [2, 9, 9]], [[9, 9]]⟩, ⟨false, [[87, 65, 4, 0]], []⟩, ⟨true, [[0, 0, 1, 7]], [[7]]⟩] : List Phase), p.OK := by
+  intro p hp
+  simp at hp
+  rcases hp with h | h | h | h <;> subst h <;> simp [Phase.OK, FramesOK, stream, frame, be24]
+
 /-- Sensitivity (seed C05-13): a layer that also keeps what it hands up raw delivers something else after the switch. -/
 theorem C05_bytes_kept_while_off_break_the_framing :
     (recv { enabled := true, buf := [0] } (frame [7, 7])).2 ≠ [[7, 7]] := by
